@@ -23,7 +23,8 @@ CHECKS["C08"] = dict(
           "dec-update / frame with |e-d| <= 8 and <= 6 pending updates per side; non-trivial = a non-empty frame decoded with an older state "
           "than the decoder's newest; distinct by script hash. Bytes: input = real encoding / header+hostile fields / random / tiny, then 0-3 "
           "of truncate, bit flip, byte set, hostile u32 overwrite, flag byte, sequence number, append, duplicate tail; HTTP adds the prefix byte "
-          "and JSON control messages. Non-trivial = the input names a sequence number the codec knows (decoder proceeds past the header); "
+          "and JSON control messages; one third of the cases go through DecodeStream with a reader that exposes only Read (1/3/7-byte or "
+          "unlimited chunks), as freighter's WebSocket server does. A frame returned by Decode is re-encoded and must pass the round-trip oracle. Non-trivial = the input names a sequence number the codec knows (decoder proceeds past the header); "
           "distinct by script hash."),
     assumptions=[
         "valid frame = every series' buffer is a whole number of samples of its type (variable types: 4-byte length-prefixed samples) and sample index + length does not wrap 2^32",
@@ -34,9 +35,9 @@ CHECKS["C08"] = dict(
         "inputs are at most 1 KiB, so that per-series bookkeeping (about 50 bytes allocated per 4-byte key on the wire) stays inside the 64 KiB constant",
     ],
     tests=[
-        dict(name="TestC08RoundTrip", quick=dict(cases=150000, shards=4), thorough=dict(cases=250000, shards=16, timeout=1500)),
-        dict(name="TestC08Dynamic", quick=dict(cases=60000, shards=3), thorough=dict(cases=80000, shards=16, timeout=1500)),
-        dict(name="TestC08Bytes", vlimit_gb=8, quick=dict(cases=120000, shards=4), thorough=dict(cases=200000, shards=16, timeout=1500)),
-        dict(name="TestC08BytesFresh", vlimit_gb=8, quick=dict(cases=50000, shards=2), thorough=dict(cases=60000, shards=16, timeout=1500)),
+        dict(name="TestC08RoundTrip", quick=dict(cases=120000, shards=4), thorough=dict(cases=250000, shards=16, timeout=1500)),
+        dict(name="TestC08Dynamic", quick=dict(cases=50000, shards=3), thorough=dict(cases=80000, shards=16, timeout=1500)),
+        dict(name="TestC08Bytes", vlimit_gb=8, quick=dict(cases=100000, shards=4, shrinktime="20s"), thorough=dict(cases=200000, shards=16, timeout=1500)),
+        dict(name="TestC08BytesFresh", vlimit_gb=8, quick=dict(cases=50000, shards=2, shrinktime="20s"), thorough=dict(cases=60000, shards=16, timeout=1500)),
     ],
 )
